@@ -136,6 +136,7 @@ pub struct Walk {
     catalog_edited: bool,
     has_validation: bool,
     refused_create_since_snap: bool,
+    rejected_since_snap: Vec<String>,
     loaded_summary: Option<BTreeMap<u32, decode::PVal>>,
     loaded_streams: BTreeMap<String, String>,
     is_foreign: bool,
@@ -147,7 +148,7 @@ impl Walk {
             out: vec![], checked: 0, nontrivial: HashSet::new(), db: RefDb::default(), db_known: false,
             last_snap: None, ok_mutation_since_snap: false, before_reopen: None, after_reopen: false,
             streams: BTreeMap::new(), streams_known: false, summary: BTreeMap::new(), summary_known: false,
-            session_ok: false, loaded: None, loaded_pt: None, pending_sig: None, catalog_edited: false, has_validation: true, refused_create_since_snap: false, loaded_summary: None, loaded_streams: BTreeMap::new(), is_foreign: false,
+            session_ok: false, loaded: None, loaded_pt: None, pending_sig: None, catalog_edited: false, has_validation: true, refused_create_since_snap: false, rejected_since_snap: vec![], loaded_summary: None, loaded_streams: BTreeMap::new(), is_foreign: false,
         }
     }
     fn fail(&mut self, tags: &[&'static str], i: usize, q: &str, r: &str, why: String) {
@@ -253,6 +254,9 @@ impl Walk {
                     self.nontrivial.insert(format!("create {}", q.len()));
                 } else {
                     self.refused_create_since_snap = true;
+                    if self.rejected_since_snap.len() < 3 {
+                        self.rejected_since_snap.push(q.chars().take(60).collect());
+                    }
                 }
                 if r != "ok" && want == Some(true) && !self.catalog_edited && self.has_validation {
                     // (after direct edits of the catalog tables a definition may collide with rows
@@ -268,6 +272,10 @@ impl Walk {
                     }
                     self.db.tables.remove(&name);
                     self.ok_mutation_since_snap = true;
+                } else if self.catalog_edited {
+                    if self.rejected_since_snap.len() < 3 {
+                        self.rejected_since_snap.push(q.chars().take(60).collect());
+                    }
                 } else if self.db.tables.contains_key(&name) && !r.starts_with("err Other") {
                     self.fail(&["C03"], i, q, r, "dropping an existing user table failed".into());
                 }
@@ -372,6 +380,17 @@ impl Walk {
             "stream_write" | "stream_remove" | "stream_read" | "has_stream" => {
                 let name = str_of_hex(t[1]).unwrap();
                 let valid = ref_stream_name(&name);
+                // the container compares names by length and upper-cased text: a name that equals a
+                // live one under that comparison denotes the same stream (listed under the spelling
+                // it was first written with)
+                let ckey = |n: &str| -> (usize, String) {
+                    let e = decode::pack_name(n, false);
+                    (e.encode_utf16().count(), e.to_uppercase())
+                };
+                let name = match self.streams.keys().find(|k| ckey(k.as_str()) == ckey(&name)) {
+                    Some(k) => k.clone(),
+                    None => name,
+                };
                 let tags: &[&'static str] = &["C11", "C04"];
                 match t[0] {
                     "stream_write" => {
@@ -632,7 +651,8 @@ impl Walk {
                 let why = describe_diff(last, &snap);
                 // (a refused create_table is also a matter of C20: limits are refused with nothing changed)
                 let tags: &[&'static str] = if self.refused_create_since_snap { &["C04", "C20"] } else { &["C04"] };
-                self.fail(tags, i, q, r, format!("only rejected calls since the previous snapshot, yet {why}"));
+                let rej = if self.rejected_since_snap.is_empty() { String::new() } else { format!(" (refused: {})", self.rejected_since_snap.join(" | ")) };
+                self.fail(tags, i, q, r, format!("only rejected calls since the previous snapshot, yet {why}{rej}"));
             }
         }
         if let Some(exp) = self.loaded.take() {
@@ -862,6 +882,7 @@ impl Walk {
         self.last_snap = Some((i, snap));
         self.ok_mutation_since_snap = false;
         self.refused_create_since_snap = false;
+        self.rejected_since_snap.clear();
     }
 
     /// independent parse of the saved summary stream (OLE property set layout only)
